@@ -101,6 +101,11 @@ def draw_value(draw, s, top=False):
               and s["items"]["type"] not in ("object", "array") and draw(st.integers(0, 15)) == 0):
             e = draw_value(draw, s["items"])
             return [e] * 255  # the largest length a one-byte prefix can hold
+        elif (m != "fixed" and s["items"]["type"] not in ("object", "array") and draw(st.integers(0, 11)) == 0):
+            # long arrays of scalars (bulk pack/unpack regimes: 63 / 64 / 65 / 130 elements)
+            k = draw(st.sampled_from([63, 64, 65, 130]))
+            e = [draw_value(draw, s["items"]) for _ in range(3)]
+            return [e[i % 3] for i in range(k)]
         else:
             k = draw(st.integers(0, 3))
         return [draw_value(draw, s["items"]) for _ in range(k)]
